@@ -19,6 +19,9 @@ func LeftShift(left, right value.Value) error {
 	}
 	lv := value.Unwrap[*value.Integer](left)
 	rv := value.Unwrap[*value.Integer](right)
+	if rv.Value < 0 {
+		return errors.WithStack(fmt.Errorf("negative shift count %d", rv.Value))
+	}
 	// nolint: gocritic
 	if int64(lv.Value<<rv.Value) > int64(math.MaxInt64) {
 		lv.Value = 0
@@ -43,6 +46,9 @@ func RightShift(left, right value.Value) error {
 	}
 	lv := value.Unwrap[*value.Integer](left)
 	rv := value.Unwrap[*value.Integer](right)
+	if rv.Value < 0 {
+		return errors.WithStack(fmt.Errorf("negative shift count %d", rv.Value))
+	}
 	// nolint: gocritic
 	if int64(lv.Value>>rv.Value) > int64(math.MaxInt64) {
 		lv.Value = 0
